@@ -209,6 +209,11 @@ class CInt:
             return e[1]
         if k == 'zero':
             return 0
+        if k == 'str':
+            return ('str', e[1])
+        if k == 'compound' and isinstance(e[1], str) and e[1].strip().startswith('struct ') and e[2] is not None and e[2][0] == 'initlist':
+            # a struct value written as a compound literal: (struct T){a, b, c}
+            return ('struct', e[1].strip(), tuple(self.ev(x) for x in e[2][1]))
         if k == 'enum':
             if e in self.atoms:
                 return self.atoms[e]
@@ -336,7 +341,14 @@ class CInt:
                     new = ('ep', old[1], old[2] + (1 if '++' in op else -1))
                     self.store(e[2], new)
                     return new if op.startswith('pre') else old
-                new = wrap(old + (1 if '++' in op else -1), self.type_of(e[2]))
+                stepv = 1
+                pt = self.ptr_type(e[2])
+                if pt and isinstance(old, int):
+                    sz = self.elem_size(pt)[1]
+                    if sz is None:
+                        raise NoEval('element size of %s unknown' % ir.fmt(e[2]))
+                    stepv = sz                     # an integer address: ++ moves by one element
+                new = wrap(old + (stepv if '++' in op else -stepv), self.type_of(e[2]))
                 self.store(e[2], new)
                 return new if op.startswith('pre') else old
             if op == '&':
@@ -382,6 +394,12 @@ class CInt:
                     return ('ep', b[1], b[2] + a)
                 if op in ('==', '!='):
                     return int((a == b) == (op == '=='))
+                if isinstance(a, tuple) and isinstance(b, tuple) and a[0] == 'ep' and b[0] == 'ep' and a[1] == b[1]:
+                    # two pointers into the same array: difference and order of the indices
+                    if op == '-':
+                        return a[2] - b[2]
+                    if op in ('<', '>', '<=', '>='):
+                        return int({'<': a[2] < b[2], '>': a[2] > b[2], '<=': a[2] <= b[2], '>=': a[2] >= b[2]}[op])
                 raise NoEval('%s on a pointer value' % op)
             if op in ('<', '>', '<=', '>=', '==', '!='):
                 return int({'<': a < b, '>': a > b, '<=': a <= b, '>=': a >= b, '==': a == b, '!=': a != b}[op])
@@ -492,6 +510,13 @@ class CInt:
         t = ir.top_nocast(lhs)
         ep = self.elem_lvalue(t) if t[0] in ('arrow', 'dot', 'idx', 'un') else None
         if ep is not None:
+            if isinstance(v, tuple) and v and v[0] == 'struct' and ep[3] is None:
+                # a whole struct stored into an element: field by field
+                r = self.P.records.get(v[1][7:].strip())
+                if r and len(r['fields']) >= len(v[2]):
+                    for i, f in enumerate(r['fields']):
+                        self.atoms[('elem', ep[1], ep[2], f[0])] = v[2][i] if i < len(v[2]) else 0
+                    return
             self.atoms[ep] = v
             return
         if t[0] == 'un' and t[1] == '*':
